@@ -85,6 +85,8 @@ def HASH_RULES():
         (r"blake_core::wiring::c04_put_block256_(l0|l4|gen)", dict(filter="blake_core::", props=["C04", "C03", "C16"], tier="quick", funcs=BF, timeout=2400)),
         (r"blake_core::wiring::c04_put_block512_(l0|l4|gen)", dict(filter="blake_core::", props=["C04", "C03", "C16"], tier="quick", funcs=BF, timeout=3000, tier_by_prop={"C16": "thorough"})),
         (r"blake_core::wiring::c04_put_block", dict(filter="blake_core::", props=["C04", "C03"], tier="thorough", funcs=BF, timeout=3000)),
+        (r"jh_e8::c06_e8_", dict(filter="jh_e8::", props=["C06"], tier="quick", timeout=3600, cbmc_args=["--max-field-sensitivity-array-size", "1100"],
+                                  funcs="specification level: bit-slice formulation of F8 (the one the crate is proved equal to) vs the JH document's E8 under round-dependent layouts; round constants from jh_x86_64::compressor::E8_BITSLICE_ROUNDCONSTANT")),
         (r"jh_core::c06_iv_contract", dict(filter="jh_core::", props=["C06"], tier="quick", funcs="jh_x86_64::consts::JH{224,256,384,512}_H0 against the real f8", timeout=2400)),
         (r"jh_core::\w+::c06_ss_l_leaf", dict(filter="jh_core::", props=["C06", "C03"], tier="quick", funcs=JF, timeout=1200)),
         (r"jh_core::wiring::c06_f8_wiring_(l4|gen)", dict(filter="jh_core::", props=["C06", "C03", "C16"], tier="quick", funcs=JF, timeout=3600, tier_by_prop={"C16": "thorough"})),
@@ -183,6 +185,8 @@ PROP_VERUS = {
                  funcs="spec-level induction over the call history: the per-call update contract (eager and lazy buffering) makes the stream view grow by exactly the bytes given, the representation is a function of the stream view, hence partition invariance")],
     "C17": [dict(builder="blake_increase_count", expect_min=4, tier="quick", second_route_exists=True,
                  funcs="Verus on the bodies of Blake{224,256,384,512}::increase_count extracted from rustc's macro expansion: 2W-bit counter value grows by exactly 8*count (carry between the words)")],
+    "C06": [dict(file="verus/compose_inverse.rs", expect_min=4, tier="quick",
+                 funcs="spec-level induction: per-round conjugation decode_{r+1}(f_B(r,x)) == f_S(r, decode_r(x)) composes over all rounds")],
     "C09": [TF_VERUS],
     "C10": [TF_VERUS, dict(file="verus/compose_inverse.rs", expect_min=3, tier="quick",
                  funcs="spec-level induction: undo_rounds(do_rounds(v)) == v and do_rounds(undo_rounds(w)) == w from the per-round inverse lemmas")],
